@@ -220,3 +220,130 @@ package list
 //@     invariant forall k int :: 0 <= k && k < len(aclData.AclContent) ==> aclData.AclContent[k] != nil
 //@     invariant ch.PrevId == stOf(c).lastRecordId
 //@     decreases len(aclData.AclContent) - rangeindex
+
+// ---------------------------------------------------------------------------------------------
+// C10: ACL storage writes are one transaction (see /verif/catalog/anystore.gospec).
+//
+//@ func newStorageRecordValue
+//@   trusted
+//@   modifies nothing
+//@   ensures result != nil
+//
+//@ func (*storage).AddAll
+//@   requires s != nil && s.store != nil && s.recordsColl != nil && s.headStorage != nil && s.arena != nil
+//@   requires !txOpened && !txCommitted && !txRolledBack && !txCommitCalled
+//@   ensures [ok_implies_committed]    err == nil && len(records) > 0 ==> txCommitted
+//@   ensures [err_implies_not_committed] err != nil ==> !txCommitted
+//@   ensures [err_implies_rolled_back] err != nil && txOpened ==> txRolledBack || txCommitCalled
+//@   ensures [commit_xor_rollback]     !(txCommitCalled && txRolledBack)
+//@   ensures [closed]                  txOpened ==> txCommitCalled || txRolledBack
+//@   ensures [empty_is_noop]           len(records) == 0 ==> err == nil && !txOpened
+//@   loop 0:
+//@     invariant txOpened && !txCommitted && !txRolledBack && !txCommitCalled && curTx == tx && tx != nil
+//@     invariant s.recordsColl == old(s.recordsColl) && s.headStorage == old(s.headStorage) && s.arena == old(s.arena)
+//@     invariant -1 <= rangeindex && rangeindex < len(records) && len(records) > 0
+//@     invariant rootof(vals) > 0
+//@     invariant err == nil
+
+//@ func CreateStorageTx
+//@   requires root != nil && headStorage != nil && store != nil
+//@   requires [ctx_is_tx] ctx == txCtx(curTx)
+//@   ensures result1 == nil ==> result0 != nil
+
+//@ func CreateStorage
+//@   requires root != nil && headStorage != nil && store != nil
+//@   requires !txOpened && !txCommitted && !txRolledBack && !txCommitCalled
+//@   ensures [ok_implies_committed]    result1 == nil ==> txCommitted
+//@   ensures [err_implies_not_committed] result1 != nil ==> !txCommitted
+//@   ensures [commit_xor_rollback]     !(txCommitCalled && txRolledBack)
+//@   ensures [closed]                  txOpened ==> txCommitCalled || txRolledBack
+
+// ---------------------------------------------------------------------------------------------
+// C04, state transitions: which accounts' permissions a record kind may touch at all. The
+// validator is reached through the ContentValidator interface; its methods only read (the concrete
+// methods' frames are checked above), so they are specified as frame-free here.
+//
+//@ func iface list.ContentValidator.ValidateRequestDecline
+//@   modifies nothing
+//@ func iface list.ContentValidator.ValidateRequestCancel
+//@   modifies nothing
+//@ func iface list.ContentValidator.ValidateRequestRemove
+//@   modifies nothing
+//@ func iface list.ContentValidator.ValidateInvite
+//@   modifies nothing
+//@ func iface list.ContentValidator.ValidateInviteRevoke
+//@   modifies nothing
+//@ func iface list.ContentValidator.ValidateInviteChange
+//@   modifies nothing
+//@ func iface list.ContentValidator.ValidateRequestJoin
+//@   modifies nothing
+//@ func iface list.ContentValidator.ValidatePermissionChange
+//@   modifies nothing
+//@ func iface list.ContentValidator.ValidateOwnershipChange
+//@   modifies nothing
+//@ func iface list.ContentValidator.ValidateRequestAccept
+//@   modifies nothing
+//@ func iface list.ContentValidator.ValidateAccountsAdd
+//@   modifies nothing
+//@ func iface list.ContentValidator.ValidateAccountRemove
+//@   modifies nothing
+//
+//@ def stwf(st) = st != nil && st.contentValidator != nil && st.keyStore != nil && st.accountStates != nil && st.invites != nil && st.requestRecords != nil && st.pendingRequests != nil
+
+// Declining, cancelling or requesting removal changes status only, never anybody's permissions.
+//@ func (*AclState).applyRequestDecline
+//@   requires stwf(st) && ch != nil && record != nil
+//@   requires forall k string :: k in st.requestRecords ==> st.requestRecords[k].RequestIdentity != nil
+//@   ensures [perms_unchanged] forall k string :: permOfKey(st, k) == old(permOfKey(st, k))
+//@ func (*AclState).applyRequestCancel
+//@   requires stwf(st) && ch != nil && record != nil
+//@   requires forall k string :: k in st.requestRecords ==> st.requestRecords[k].RequestIdentity != nil
+//@   ensures [perms_unchanged] forall k string :: permOfKey(st, k) == old(permOfKey(st, k))
+//@ func (*AclState).applyRequestRemove
+//@   requires stwf(st) && ch != nil && record != nil && record.Identity != nil
+//@   ensures [perms_unchanged] forall k string :: permOfKey(st, k) == old(permOfKey(st, k))
+// Invite management never touches account permissions.
+//@ func (*AclState).applyInvite
+//@   requires stwf(st) && ch != nil && record != nil
+//@   ensures [perms_unchanged] forall k string :: permOfKey(st, k) == old(permOfKey(st, k))
+//@ func (*AclState).applyInviteRevoke
+//@   requires stwf(st) && ch != nil && record != nil
+//@   ensures [perms_unchanged] forall k string :: permOfKey(st, k) == old(permOfKey(st, k))
+//@ func (*AclState).applyInviteChange
+//@   requires stwf(st) && ch != nil && record != nil
+//@   ensures [perms_unchanged] forall k string :: permOfKey(st, k) == old(permOfKey(st, k))
+// A join request only (re)creates the author's own entry, without permissions.
+//@ func (*AclState).applyRequestJoin
+//@   requires stwf(st) && ch != nil && record != nil && record.Identity != nil
+//@   ensures [only_author_no_perms] err == nil ==> (forall k string :: k != mapKeyFromPubKey(record.Identity) ==> permOfKey(st, k) == old(permOfKey(st, k))) && permOfKey(st, mapKeyFromPubKey(record.Identity)) == 0
+//@   ensures [rejected_unchanged]   err != nil ==> (forall k string :: permOfKey(st, k) == old(permOfKey(st, k)))
+// A permission change touches exactly the named account and sets exactly the named level.
+//@ func (*AclState).applyPermissionChange
+//@   requires stwf(st) && ch != nil && record != nil
+//@   ensures [only_target] err == nil ==> (forall k string :: k != mapKeyFromPubKey(st.keyStore.PubKeyFromProto(ch.Identity)) ==> permOfKey(st, k) == old(permOfKey(st, k))) && permOfKey(st, mapKeyFromPubKey(st.keyStore.PubKeyFromProto(ch.Identity))) == ch.Permissions
+//@   ensures [rejected_unchanged] err != nil ==> (forall k string :: permOfKey(st, k) == old(permOfKey(st, k)))
+
+// ---------------------------------------------------------------------------------------------
+// C10 / C03: a rejected or unpersisted record leaves the live ACL exactly as it was.
+//
+//@ func iface list.AclRecordBuilder.UnmarshallWithId
+//@   modifies nothing
+//@   ensures result1 == nil ==> result0 != nil
+//@ func iface list.Storage.AddAll
+//@   modifies nothing
+// Copy only allocates; its result is a new object.
+//@ func (*AclState).Copy
+//@   trusted
+//@   modifies nothing
+//@   ensures result != nil && fresh(result)
+// ApplyRecord works on the state it is called on (here: always the fresh copy).
+//@ func (*AclState).ApplyRecord
+//@   trusted
+//@   modifies younger st
+//
+//@ func (*aclList).AddRawRecord
+//@   requires a != nil && rawRec != nil && a.recordBuilder != nil && a.aclState != nil && a.storage != nil && a.indexes != nil
+//@   requires typeis(a.recordBuilder, "*list.aclRecordBuilder") && ifaceptr(a.recordBuilder) != nil
+//@   ensures [err_keeps_state]   err != nil ==> a.aclState == old(a.aclState) && len(a.records) == old(len(a.records)) && (forall k string :: (k in a.indexes) == old(k in a.indexes))
+//@   ensures [err_keeps_builder] err != nil ==> cast(a.recordBuilder, "*aclRecordBuilder").state == old(cast(a.recordBuilder, "*aclRecordBuilder").state)
+//@   ensures [ok_appends_one]    err == nil ==> len(a.records) == old(len(a.records)) + 1 && a.aclState != nil && cast(a.recordBuilder, "*aclRecordBuilder").state == a.aclState
